@@ -63,9 +63,7 @@ def table(prog):
                 nested = [(k, v) for k, v in sg.items() if k[0] != cv]
                 tag = R
                 if nested:
-                    inner = nested[0][1]
-                    if "(" in R and not R.endswith("(" + inner + ")"):
-                        continue
+                    tag = "%s(%s)" % (R, nested[0][1])
                 ok, own, prop, deleg = classify(cb, creg)
                 # values built on paths that can return Ok
                 sm = w.summary(callee, sg)
@@ -73,7 +71,7 @@ def table(prog):
                 cls = "never"
                 if ok or deleg:
                     cls = "always" if not own and not prop and not deleg else "maybe"
-                key = (V, R)
+                key = (V, tag)
                 prev = out["cells"].get(key)
                 cell = {"cls": cls, "builds": vals, "callee": callee, "deleg": deleg, "loc": cb.loc()}
                 if prev:   # several nested expansions: merge conservatively
